@@ -24,6 +24,7 @@ import MW.Lemmas.LedgerObsEx
 import MW.Lemmas.LedgerD2Ex
 import MW.Lemmas.LedgerFUEx
 import MW.Lemmas.TxmgrCodecRec
+import MW.Lemmas.LedBytesInv
 namespace MW.Props.C01
 open MW MW.Model.Ledger MW.Spec.Chain MW.Spec.Books MW.Lemmas.Ledger
 
@@ -463,5 +464,130 @@ example : (⟨List.replicate 32 1, ⟨5, List.replicate 32 2⟩⟩ : TxRecKeyB).
 /-- … and an over-wide field is rejected by the predicate (height 2^64) -/
 example : (⟨List.replicate 32 0, ⟨2 ^ 64, List.replicate 32 0⟩, 0⟩ : CredKeyB).WF = false := by decide
 end Codec
+
+-- ------------------------------------------------------------------ Round 5: the tuple-keyed ledger IS the byte store
+/-! `MW.LedBytes`: L1 (C11's key/value database: `MW.Spec.KV.DB`, buckets of byte keys — `MW.Props.C11.bucket_*`)
+    → L2 (the byte codecs of every record, from regenerated tables) → L3 (`MW.Model.Ledger.Store`, association lists
+    keyed by decoded tuples).  `absStore E bs` reads a byte store (`BStore`: one byte-keyed list per bucket) as a
+    ledger store, bucket by bucket through a `Codec`; `E.N : Names` is an injective reading of hashes / wallet ids /
+    addresses as the model's symbolic ids.  `Canon` / `CanonS`: the bucket / store holds images of well-formed
+    (field-width) records only — true of the empty database, kept by every step below. -/
+namespace LedBytes
+open MW.LedBytes
+
+/-- EVERY PRIMITIVE ACCESS COMMUTES with the abstraction of a bucket, literally (equal association lists), for any
+    codec satisfying the laws: get, exists, put, delete, prefix iteration (`hp`: prefix exactness of the key codec) -/
+theorem bucket_access_commutes {KB VB K V : Type} [DecidableEq K] {cd : Codec KB VB K V} (L : cd.Laws)
+    {m : AMap.T Bytes Bytes} (hm : Canon cd m) {k : KB} (hk : cd.wfK k) :
+    AMap.get (absBucket cd m) (cd.nmK k) = (AMap.get m (cd.encK k)).bind (fun bv => (cd.decV bv).map cd.nmV) ∧
+    (AMap.get (absBucket cd m) (cd.nmK k)).isSome = (AMap.get m (cd.encK k)).isSome ∧
+    (∀ v, cd.wfV v → absBucket cd (AMap.put m (cd.encK k) (cd.encV v)) = AMap.put (absBucket cd m) (cd.nmK k) (cd.nmV v) ∧
+      Canon cd (AMap.put m (cd.encK k) (cd.encV v))) ∧
+    (absBucket cd (AMap.erase m (cd.encK k)) = AMap.erase (absBucket cd m) (cd.nmK k) ∧ Canon cd (AMap.erase m (cd.encK k))) ∧
+    (∀ (pfx : Bytes) (p : K → Bool), (∀ k, cd.wfK k → pfx.isPrefixOf (cd.encK k) = p (cd.nmK k)) →
+      absBucket cd (AMap.scan m (fun b => pfx.isPrefixOf b)) = AMap.scan (absBucket cd m) p) :=
+  ⟨abs_get L hm hk, abs_has L hm hk, fun _ hv => ⟨abs_put L hm hk hv, canon_put hm hk hv⟩,
+   ⟨abs_erase L hm hk, canon_erase hm _⟩, fun pfx p hp => abs_scan L pfx p hp hm⟩
+
+/-- THE CODECS SATISFY THE LAWS (decode ∘ encode = some on well-formed records, injective naming of keys): credits `c`
+    (45-byte unspent and 121-byte spent values), unspent `u`, debits `d`, balances `bal`, tx records `t`, synced
+    heights `sync`, wallet status `ws`, addresses `a`, deposit history `lg`, and the pending buckets `m`, `mi`, `mc`, `LG` -/
+theorem codec_laws (N : Names) (loc : Model.TxmgrCodec.TxLocB → BlkId × Nat) (deser : Bytes → Tx) :
+    (cdC N).Laws ∧ (cdU N).Laws ∧ (cdD N).Laws ∧ (cdBal N).Laws ∧ (cdT N loc).Laws ∧ (cdSync N).Laws ∧ (cdWS N).Laws ∧
+    (cdA N).Laws ∧ (cdG N).Laws ∧ (cdM N deser).Laws ∧ (cdMI N).Laws ∧ (cdMC N).Laws ∧ (cdUG N).Laws :=
+  ⟨cdC_laws N, cdU_laws N, cdD_laws N, cdBal_laws N, cdT_laws N loc, cdSync_laws N, cdWS_laws N, cdA_laws N, cdG_laws N,
+   cdM_laws N deser, cdMI_laws N, cdMC_laws N, cdUG_laws N⟩
+
+/-- still open: the laws of the block-record codec `b` (value built by the append loop of updateBlockRecord) -/
+def codec_laws_blocks_full : Prop := ∀ N : Names, (cdB N).Laws
+
+/-- the typed round trip of the credit VALUE (left open in Round 4): `readCreditValue` reads every well-formed credit
+    back from the 45 bytes `valueUnspentCredit` writes — and from any extension of them (the 121-byte spent form) -/
+theorem credit_value_roundtrip (c : Model.TxmgrCodec.CreditValB) (h : c.WF) (ext : Bytes) :
+    Model.TxmgrCodec.readCreditValue (enc45 c ++ ext) = some c ∧
+    (c.spent = false → Model.TxmgrCodec.valueUnspentCredit c = .ok (enc45 c)) :=
+  ⟨readCreditValue_enc45 c h ext, fun hs => valueUnspentCredit_eq c hs h.2.2⟩
+
+/-- spendCredit's value rewrite IS the codec's spent form: the 45 bytes of an unspent well-formed credit become the
+    121 bytes `enc45 {c with spent := true} ++ keyDebit spender` (spent bit set in place, spender's debit key appended) -/
+theorem spend_credit_value (c : Model.TxmgrCodec.CreditValB) (h : c.WF) (hs : c.spent = false)
+    (dk : Model.TxmgrCodec.CredKeyB) (hd : dk.WFd = true) :
+    Model.TxmgrCodec.spendCreditValue (enc45 c) dk = .ok (enc45 { c with spent := true } ++ Model.TxmgrCodec.keyDebit dk) :=
+  spendCreditValue_enc45 c h hs dk hd
+
+/-- the one height whose 8-byte key is the name "syncedto" of the cursor in the same bucket (≈ 8.3·10^18): the
+    hypothesis `keySynced h ≠ syncedToKey` of the sync-bucket lemmas is necessary -/
+theorem syncedto_key_collision : Model.TxmgrCodec.keySynced 0x73796e636564746f = syncedToKey :=
+  syncedTo_key_collision
+
+/-- `ledger_on_bytes` for AddCredits (mined) — duplicate check (existsCredit), address record (first-use height),
+    credit, unspent entry, working balance per relevant output, then the deposit records (`lg` put, `LG` delete):
+    running the byte-level function and abstracting = abstracting and running `Model.Ledger.addCredits`, error exits
+    included; the result is canonical again -/
+theorem ledger_on_bytes_partial (E : MW.LedBytes.Env) (p : Params) {sb : SB} (hC : CanonS E sb.1) {txh : Bytes}
+    {blk : Model.TxmgrCodec.BlockMetaB} (hs : StepWF txh blk) {rs : List RelB} (hrs : ∀ r ∈ rs, r.WF E.N) (tr : TxRec)
+    (hid : tr.tx.id = E.N.tx txh) (hrel : tr.relOut = rs.map (RelB.nm E.N)) :
+    (addCreditsB p txh tr.tx.cb blk sb rs).map (absSB E)
+      = addCredits p (absStore E sb.1) (absBals E.N sb.2) tr (nmBlk E.N blk) ∧
+    ∀ sb', addCreditsB p txh tr.tx.cb blk sb rs = .ok sb' → CanonS E sb'.1 :=
+  addCredits_on_bytes E p hC hs hrs tr hid hrel
+
+/-- the sync bucket: putSyncedBucket / fetchSyncedBlock / the delete loop of resetSyncedTo / the cursor write commute -/
+theorem sync_on_bytes (E : MW.LedBytes.Env) {sync : AMap.T Bytes Bytes} (hc : Canon (cdSync E.N) (AMap.erase sync syncedToKey))
+    {h : Nat} (hh : h < 256 ^ 8) (hne : Model.TxmgrCodec.keySynced h ≠ syncedToKey) :
+    (∀ hash time, hash.length = 32 → time < 256 ^ 4 →
+      absBucket (cdSync E.N) (AMap.erase (AMap.put sync (Model.TxmgrCodec.keySynced h) (Model.TxmgrCodec.valueSynced hash time)) syncedToKey)
+        = AMap.put (absBucket (cdSync E.N) (AMap.erase sync syncedToKey)) h (E.N.blk hash) ∧
+      syncedToOf (AMap.put sync (Model.TxmgrCodec.keySynced h) (Model.TxmgrCodec.valueSynced hash time)) = syncedToOf sync) ∧
+    AMap.get (absBucket (cdSync E.N) (AMap.erase sync syncedToKey)) h
+      = (AMap.get sync (Model.TxmgrCodec.keySynced h)).bind (fun v => (Model.TxmgrCodec.readSyncedValue v).map (fun x => E.N.blk x.1)) ∧
+    absBucket (cdSync E.N) (AMap.erase (AMap.erase sync (Model.TxmgrCodec.keySynced h)) syncedToKey)
+      = AMap.erase (absBucket (cdSync E.N) (AMap.erase sync syncedToKey)) h ∧
+    syncedToOf (AMap.put sync syncedToKey (Model.TxmgrCodec.valueSyncedTo h)) = h :=
+  ⟨fun _ _ hl ht => ⟨(sync_put_height E hc hh hne hl ht).1, (sync_put_height E hc hh hne hl ht).2.1⟩,
+   sync_get_height E hc hh hne, (sync_erase_height E hc hh hne).1, (sync_put_cursor sync hh).2⟩
+
+/-- what remains of `ledger_on_bytes`: the same statement for the whole of AddRelevantTx (mined) and of Rollback's
+    inner loop — it needs byte-level versions of insertMinedTx (updateMinedBalance: spendCredit's value rewrite,
+    putDebit, withdrawGame; putTxRecord; the block-record append; removeDoubleSpends on the pending buckets) and of
+    rollbackTx, each simulated like `addCreditsB`; the commuting lemmas (`bucket_access_commutes`) and the codec laws
+    they need are proved, the block-record codec (`codec_laws_blocks_full`) and the byte steps themselves are not -/
+def ledger_on_bytes_full : Prop :=
+  ∀ (E : MW.LedBytes.Env) (p : Params) (own : Own),
+    ∃ (stepB : SB → TxRec → Model.TxmgrCodec.BlockMetaB → M SB), ∀ (sb : SB) (tr : TxRec) (blk : Model.TxmgrCodec.BlockMetaB),
+      CanonS E sb.1 → (stepB sb tr blk).map (absSB E) = addRelevantMined p own (absStore E sb.1) (absBals E.N sb.2) tr (nmBlk E.N blk)
+
+/-- `inv_on_bytes`: C01's invariant transfers to the byte store along any simulated step: if the byte-level step
+    `fB` simulates the ledger step `f` (and keeps the store canonical) and C01 shows `f` takes `Inv … chain` to
+    `Inv … chain'` (connect_sound, disconnect_sound, handler_step …), then `fB` succeeds and takes `InvB … chain` to
+    `InvB … chain'` -/
+theorem inv_on_bytes {E : MW.LedBytes.Env} {c : Ctx} (fB : BStore → M BStore) (f : Store → M Store)
+    (hsim : ∀ bs, CanonS E bs → (fB bs).map (absStore E) = f (absStore E bs) ∧ ∀ bs', fB bs = .ok bs' → CanonS E bs')
+    {chain chain' : List Block} (hpres : ∀ s, Inv c s chain → ∃ s', f s = .ok s' ∧ Inv c s' chain')
+    (bs : BStore) (h : InvB E c bs chain) : ∃ bs', fB bs = .ok bs' ∧ InvB E c bs' chain' :=
+  MW.LedBytes.inv_on_bytes fB f hsim hpres bs h
+
+/-- what the invariant says about the BYTES: under a ready wallet's 42-byte id the balance bucket holds the 8-byte
+    big-endian total the chain pays it; under the 8-byte key of every height of the chain the sync bucket holds a
+    32-byte hash named as the chain's block there (‖ time); the "syncedto" cursor is the tip height -/
+theorem inv_bytes {E : MW.LedBytes.Env} {c : Ctx} {bs : BStore} {chain : List Block} (h : InvB E c bs chain) :
+    (∀ w : Bytes, w.length = 42 → (readyWallets (absStore E bs) c.wallets).contains (E.N.wal w) = true →
+      AMap.get bs.bal w = some (Model.TxmgrCodec.valueBalance (totalU (bookOf c.p c.own chain).L (E.N.wal w)))) ∧
+    (∀ (ht : Nat) (b : Block), ht < 256 ^ 8 → Model.TxmgrCodec.keySynced ht ≠ syncedToKey → chain[ht]? = some b →
+      ∃ hash time, AMap.get bs.sync (Model.TxmgrCodec.keySynced ht) = some (Model.TxmgrCodec.valueSynced hash time) ∧
+        hash.length = 32 ∧ E.N.blk hash = b.id) ∧
+    syncedToOf bs.sync + 1 = chain.length :=
+  ⟨fun _ hw hr => (invB_balance h hw hr).1, fun _ _ hh hne hb => invB_sync h hh hne hb, invB_syncedTo h⟩
+
+-- the hypotheses are satisfiable: an injective naming, the empty (canonical) database abstracting to the empty ledger
+-- store, a well-formed step and relevant output, a well-formed spent credit
+example : Names := asciiNames
+example (E : MW.LedBytes.Env) : CanonS E {} ∧ absStore E {} = {} := ⟨canonS_empty E, absStore_empty E⟩
+example : StepWF (List.replicate 32 7) ⟨5, List.replicate 32 9⟩ := ⟨by decide, by decide, by decide⟩
+example : RelB.WF asciiNames ⟨0, List.replicate 42 0x61, false, 1000, .stk 10, List.replicate 32 3, List.replicate 32 3⟩ :=
+  ⟨by decide, by decide, by decide, by decide, rfl⟩
+example : wfCredit (⟨5, true, false, .staking, 11, List.replicate 32 1⟩,
+    some ⟨List.replicate 32 2, ⟨3, List.replicate 32 4⟩, 0⟩) := ⟨⟨by decide, by decide, by decide⟩, rfl, fun _ h => by cases h; decide⟩
+end LedBytes
 
 end MW.Props.C01
